@@ -22,7 +22,8 @@ RULE = ("Hypothesis draws a configuration: API in {marginal_ln_likelihood, rejec
         "private BaseException in rotation). Oracle per injection: the call raises the injected exception (or one chained "
         "from it) instead of returning; the private TMPDIR holds no HDF5 file (by extension or magic bytes) and the sampler's own tempfile_path no file at all afterwards; the SHA-256 of the user's file "
         "is unchanged; the same TheJoker then reproduces the baseline likelihoods bit-for-bit and returns a valid "
-        "rejection sample. Non-trivial: k>1, or a worker-side fault, or a fault after the cache file was written.")
+        "rejection sample. Non-trivial: k>1, or a worker-side fault, or a fault after the cache file was written."
+        " Also: the I/O library's own error type (tables.HDF5ExtError) among the injected exceptions; user files in single precision; for MultiPool configurations a library that lacks its 's' column is run under a 90 s watchdog: the workers' own failure must reach the caller, leave nothing behind and not spoil the next call; a vanished user file is reported as such.")
 SHARDS = {"quick": 4, "thorough": 16}
 BUDGET = {"quick": 80, "thorough": 800}
 
